@@ -165,6 +165,8 @@ def run(ctx: Ctx) -> None:
             _check_pure(ctx, eff, k, (0, 2))
     _check_systems(ctx, eff)
     _check_make_ann(ctx)
+    from sa.checks import c16_div
+    c16_div.check(ctx, c16_div.kernels_of(ctx))
 
 
 # ------------------------------------------------------------------- D16.6
